@@ -293,6 +293,67 @@ func c05(c *Ctx) {
 		g := one(c, "pool Get in compaction", callsIn(cp, Callee("mem", "BufferPool.Get")))
 		c.ArgIs(g, 0, "merged-buffer-sized-by-suffix-bytes", FieldLoad(fBytes))
 	})
+	c.Ob("frame-handoff", "R12", "sibling x2 (client/server handleData): a DATA frame with payload is handed to the stream as exactly that frame's buffer, after taking a reference on it (the reader frees the frame afterwards), whenever the payload is non-empty and the frame was accepted; end-of-stream is signalled only after that hand-off", 8, func() {
+		fBuf := c.field(tr, "recvMsg", "buffer")
+		fData := c.field(tr, "parsedDataFrame", "data")
+		for _, pr := range []struct{ fn, wr string }{{"http2Client.handleData", "ClientStream.write"}, {"http2Server.handleData", "ServerStream.write"}} {
+			f := c.fn(tr, pr.fn)
+			var dataW ssa.CallInstruction
+			var ends []ssa.Instruction
+			for _, w := range callsIn(f, AnyCM(Callee(tr, pr.wr), Callee(tr, "Stream.write"))) {
+				al := allocRoot(w.Common().Args[1])
+				isData := false
+				if al != nil {
+					for _, st := range partStoresTo(al) {
+						if fa, ok := st.Addr.(*ssa.FieldAddr); ok && sameField(fieldOfAddr(fa), fBuf) {
+							isData = true
+							c.ValueIs(st, st.Val, pr.fn+":hands-over-the-frame's-buffer", FieldLoad(fData))
+						}
+					}
+				}
+				if isData {
+					dataW = w
+				} else {
+					ends = append(ends, w)
+				}
+			}
+			for _, cs := range callsIn(f, AnyCM(Callee(tr, "http2Client.closeStream"), Callee(tr, "http2Server.closeStream"))) {
+				if c.HasFact(cs, Truth(CallRes(Callee(tr, "parsedDataFrame.StreamEnded"), 0), true)) {
+					ends = append(ends, cs)
+				}
+			}
+			if !c.Expect(dataW != nil, nil, f, pr.fn+":data-handed-over", "DATA payload is not handed to the stream") {
+				continue
+			}
+			ref := one(c, "data.Ref in "+pr.fn, callsIn(f, AnyCM(Callee("mem", "Buffer.Ref"), Callee("mem", "BufferSlice.Ref"))))
+			c.Expect(FieldLoad(fData)(ref.Common().Value), ref, f, pr.fn+":refs-the-frame's-buffer", "the reference is taken on something other than the frame's buffer")
+			c.Expect(ref.Block() == dataW.Block() && instrDominates(ref, dataW), ref, f, pr.fn+":ref-with-the-handoff", "the frame's buffer is handed over without a reference taken on the same path (the reader loop frees the frame)")
+			dl := CallRes(AnyCM(Callee("mem", "Buffer.Len"), Callee("mem", "BufferSlice.Len")), 0)
+			c.MustFact(dataW, pr.fn+":only-non-empty-payload", CmpInt(dl, token.GTR, 0))
+			// non-empty accepted payload is always handed over: once the payload length is known,
+			// the hand-off can be skipped only on an arm where the length is <= 0
+			var lenCall ssa.Instruction
+			for _, lc := range callsIn(f, AnyCM(Callee("mem", "Buffer.Len"), Callee("mem", "BufferSlice.Len"))) {
+				if instrDominates(lc, dataW) {
+					lenCall = lc
+				}
+			}
+			if c.Expect(lenCall != nil, dataW, f, pr.fn+":payload-length", "payload length not computed before the hand-off") {
+				c.MustPass(pr.fn+":payload-always-handed-over", pathQuery{Fn: f, Starts: []ssa.Instruction{lenCall}, Barrier: func(in ssa.Instruction) bool { return in == ssa.Instruction(dataW) }, Target: isReturn,
+					EdgeBlock: func(from, to *ssa.BasicBlock) bool {
+						_, ok := hasFact(edgeFacts(from, to), CmpInt(dl, token.LEQ, 0))
+						return ok
+					}}, lenCall)
+			}
+			// end-of-stream after the data
+			for _, e := range ends {
+				if c.HasFact(e, Truth(CallRes(Callee(tr, "parsedDataFrame.StreamEnded"), 0), true)) {
+					c.MustPass(pr.fn+":no-data-after-end-of-stream", pathQuery{Fn: f, Starts: []ssa.Instruction{e}, Target: func(in ssa.Instruction) bool { return in == ssa.Instruction(dataW) }}, e)
+				}
+			}
+			c.Expect(len(ends) >= 1, nil, f, pr.fn+":end-of-stream-signalled", "END_STREAM on a DATA frame is not signalled to the stream")
+		}
+	})
 	c.Ob("get-then-load", "R3", "both receive helpers call load() before anything else so that the next queued item moves to the channel; every reader passes the received item to them", 6, func() {
 		for _, name := range []string{"recvBufferReader.readAdditional", "recvBufferReader.readMessageHeaderAdditional"} {
 			f := c.fn(tr, name)
